@@ -35,7 +35,7 @@ for _k in M.REAL_KINDS:
 INVALID_CLASSES = ("w_past", "wb_past", "wb_first_nonzero", "wb_b_nonincreasing", "wb_g_nonincreasing",
                    "wb_overlap", "wb_offset_past_end", "wb_len_mismatch", "wb_negative", "w_negative", "w_wrap", "wb_wrap")
 
-MISMATCH_FIELDS = ("class", "size", "order", "subdir_s", "file_ms", "n", "d", "is_complex", "nsub", "continuous")
+MISMATCH_FIELDS = ("class", "size", "order", "subdir_s", "file_ms", "n", "d", "is_complex", "nsub", "continuous", "fraction")
 
 
 # --------------------------------------------------------------------------------------
@@ -270,6 +270,12 @@ def _mismatch_cfg(rng, cfg):
         c["nsub"] = cfg.nsub + 1
     elif f == "continuous":
         c["continuous"] = not cfg.continuous
+    elif f == "fraction":
+        # the same rate written as another fraction: numerator and denominator stored with the channel both differ
+        k_ = rng.choice([2, 3, 10])
+        if cfg.n * k_ >= 2**32:
+            return None
+        c["n"], c["d"] = cfg.n * k_, cfg.d * k_
     return f, c
 
 
@@ -309,7 +315,8 @@ def gen_plan(prop, tier, rng, i):
         # (C08 / C04 / C06: a quarter of the channels are multi-session / multi-directory ones - bounds, reads,
         #  file placement and per-session attributes must hold over restarts as well)
         kp = (0.35 if thorough else 0.2) if prop == "C11" else 0.0
-        plan["sessions"] = [s for s in _gen_sessions(rng, cfg, maxlen, kill_p=kp) if prop == "C11" or not s.get("mismatch")]
+        plan["sessions"] = [s for s in _gen_sessions(rng, cfg, maxlen, kill_p=kp) if prop == "C11" or not s.get("mismatch")
+                            or (prop == "C06" and s.get("mismatch") == "fraction")]
         if not plan["sessions"]:
             plan["sessions"] = [{"top": "t0", "uuid": "sess0", "start": cfg.start,
                                  "ops": M.gen_writes(rng, cfg, 3, maxlen=maxlen)}]
@@ -422,8 +429,9 @@ def _gen_sessions(rng, cfg, maxlen, kill_p=0.0):
     m = M.RFModel(cfg)
     periods = {}  # file T -> top that recorded it
     cap = cfg.typical_capacity()
+    pre = "tmp.t" if rng.random() < 0.15 else "t"   # (a top-level directory whose name contains "tmp.")
     for k in range(ns):
-        top = "t%d" % rng.randrange(ntops)
+        top = "%s%d" % (pre, rng.randrange(ntops))
         uuid = "sess%d" % k
         if k > 0 and rng.random() < 0.3 and not after_kill:
             mm = _mismatch_cfg(rng, cfg)
